@@ -112,4 +112,64 @@ theorem countOthers_ne_zero (n i : Nat) (p : Nat → Bool) :
     have := h k (List.mem_range.mpr hk)
     simp [hki, hp] at this
 
+/-- the closure of `FreeDuplicateClaimImmediately`'s retain, as generated (`releaseDuplicate_eq` is `rfl`: it breaks when the text changes) -/
+def dupF (blocker : Nat) : Bool → Nat → Bool × Bool := fun found_blocker iter =>
+  let first_blocker := !found_blocker
+  let found_blocker := if iter == blocker then true else found_blocker
+  (found_blocker, (iter != blocker || !first_blocker))
+
+theorem releaseDuplicate_eq (m : BlockMap) (c b : Nat) :
+    releaseDuplicate m c b = BlockMap.removeIfEmpty (BlockMap.retainStateAt m c false (dupF b)) c := rfl
+
+theorem retainState_dup_true (b : Nat) (l : List Nat) : BlockMap.retainState (dupF b) true l = l := by
+  induction l with
+  | nil => rfl
+  | cons x r ih => simp [BlockMap.retainState, dupF, ih]
+
+theorem retainState_dup_false (b : Nat) (l : List Nat) : BlockMap.retainState (dupF b) false l = l.erase b := by
+  induction l with
+  | nil => rfl
+  | cons x r ih =>
+    by_cases h : x = b
+    · subst h
+      have := retainState_dup_true x r
+      simp [BlockMap.retainState, dupF] at this ⊢
+      exact this
+    · have hb : (x == b) = false := by simp [h]
+      simp [BlockMap.retainState, dupF, h, hb, List.erase_cons, ih]
+
+theorem get_releaseDuplicate (m : BlockMap) (c b c' : Nat) :
+    BlockMap.get (releaseDuplicate m c b) c' = if c' = c then (BlockMap.get m c).erase b else BlockMap.get m c' := by
+  rw [releaseDuplicate_eq]
+  unfold BlockMap.removeIfEmpty BlockMap.retainStateAt BlockMap.get
+  by_cases hc : c' = c
+  · subst hc
+    cases h : m c' with
+    | none => simp [h]
+    | some v =>
+      cases hf : BlockMap.retainState (dupF b) false v with
+      | nil => rw [retainState_dup_false] at hf; simp [BlockMap.set, hf, retainState_dup_false]
+      | cons y ys => rw [retainState_dup_false] at hf; simp [BlockMap.set, hf, retainState_dup_false]
+  · cases h : m c with
+    | none => simp [h, hc]
+    | some v =>
+      cases hf : BlockMap.retainState (dupF b) false v <;> simp [BlockMap.set, hc, hf]
+
+theorem heldByEvents_iff (evs : List (Option (Nat × Nat))) (c cp : Nat) :
+    heldByEvents evs c cp = true ↔ some (c, cp) ∈ evs := by
+  unfold heldByEvents
+  rw [List.any_eq_true]
+  constructor
+  · rintro ⟨a, ha, h⟩
+    cases a with
+    | none => simp at h
+    | some p =>
+      obtain ⟨x, y⟩ := p
+      simp at h
+      obtain ⟨h1, h2⟩ := h
+      subst h1; subst h2
+      exact ha
+  · intro h
+    exact ⟨some (c, cp), h, by simp⟩
+
 end Ldk.RaaBlock
